@@ -45,7 +45,7 @@ func Finish(root, prop, tier string, ck *Check, total *explore.Counters, crashes
 			harnessErr = true
 			continue
 		}
-		fails, stderr, lc := explore.RerunCase(prop, tier, c.Case, 5, 5*time.Minute, nil)
+		fails, stderr, lc := explore.RerunCase("", prop, tier, c.Case, 5, 5*time.Minute, nil)
 		if fails == 5 {
 			v := explore.Violation{Property: prop, Class: "crash", Msg: fmt.Sprintf("worker crashes deterministically on case %d (%s)", c.Case, c.Exit),
 				Case: json.RawMessage(fmt.Sprintf(`{"index":%d}`, c.Case)), Detail: stderr}
@@ -93,7 +93,7 @@ func Finish(root, prop, tier string, ck *Check, total *explore.Counters, crashes
 				confirmed = true
 				break
 			}
-			fails, _, _ := explore.RerunCase(prop, tier, cs.Index, 5, 5*time.Minute, nil)
+			fails, _, _ := explore.RerunCase(v.Exe, prop, tier, cs.Index, 5, 5*time.Minute, nil)
 			if fails == 5 {
 				confirmed = true
 				p := explore.WriteReplay(root, v, tier)
